@@ -375,7 +375,7 @@ void h_todo_arm(void)
 
 /* ================= injectbounce ================= */
 #ifdef P_INJECT
-char sbuf[16]; unsigned g_slen; int g_opened_qq, g_failed, g_from_set, g_to_set, g_closed_qq, g_close_ok, g_nchunks, g_readerr, g_getinfo, g_bounce_exists;
+char *sbuf; unsigned g_slen; int g_opened_qq, g_failed, g_from_set, g_to_set, g_closed_qq, g_close_ok, g_nchunks, g_readerr, g_getinfo, g_bounce_exists;
 char *g_from, *g_to; char g_from0;
 int qmail_open(struct qmail *q) { if (ND_BOOL()) return -1; g_opened_qq = 1; return 0; }
 unsigned long qmail_qp(struct qmail *q) { return 7; }
@@ -386,13 +386,15 @@ char *qmail_close(struct qmail *q) { g_closed_qq = 1; g_close_ok = ND_BOOL() && 
 int newfield_datemake(datetime_sec t) { return 1; } int quote(stralloc *a, stralloc *b) { return 1; } int quote2(stralloc *a, char *s) { return 1; }
 size_t strlen(const char *s) { return ND_UINT() % 100; }
 int open_read(char *f) { return ND_BOOL() ? -1 : 12; } int close(int fd) { return 0; }
-ssize_t substdio_get(substdio *s, char *b, size_t n) { int r = ND_INT(); if (g_nchunks >= 2 || r == 0) return 0; if (r < 0) { g_readerr = 1; return -1; } ++g_nchunks; return 1 + ND_UINT() % 128; }
+ssize_t substdio_get(substdio *s, char *b, size_t n) { int r = ND_INT(); if (r == 0) return 0; if (r < 0) { g_readerr = 1; return -1; } g_nchunks = 1; return 1 + ND_UINT() % 128; }   /* any number of chunks (loop contract) */
 void h_inject(void)
 {
   int r, k, cut; char norm0, isdbl;
   common_init(); g_opened_qq = g_failed = g_from_set = g_to_set = g_closed_qq = g_close_ok = g_nchunks = g_readerr = g_getinfo = 0;
-  for (k = 0; k < 16; ++k) sbuf[k] = ND_CHAR();
-  g_slen = 1 + ND_UINT() % 16; sbuf[g_slen - 1] = 0; for (k = 0; k + 1 < (int)g_slen; ++k) V_ASSUME(sbuf[k] != 0);
+  /* the envelope sender: a C string of ANY length (g_slen bytes with the terminating NUL, up to 2^31) and any content; injectbounce itself reads only
+     its first five and last five bytes (every other consumer is a stub), which are constrained to be non-NUL where they lie inside the string */
+  g_slen = ND_UINT(); V_ASSUME(g_slen >= 1 && g_slen <= 0x7fffffff); sbuf = malloc(g_slen); V_ASSUME(sbuf != 0); sbuf[g_slen - 1] = 0;
+  for (k = 0; k < 5; ++k) { if ((unsigned)k + 1 < g_slen) V_ASSUME(sbuf[k] != 0); if (g_slen >= (unsigned)k + 2) V_ASSUME(sbuf[g_slen - 2 - k] != 0); }
   cut = g_slen >= 5 && sbuf[g_slen - 5] == '-' && sbuf[g_slen - 4] == '@' && sbuf[g_slen - 3] == '[' && sbuf[g_slen - 2] == ']';
   doublebounceto.s = "postmaster@x"; doublebounceto.len = 13; bouncehost.s = "h"; bouncehost.len = 1;
   r = injectbounce(g_id);
